@@ -580,7 +580,7 @@ def run(tier, seed, replay=None):
                    "the model's transcription ties that model to the code on every run"]
     rep.lean = lean_obligations(PROP, thorough=(tier == "thorough"))
     n_diagrams = 600 if tier == "quick" else 9000
-    n_same = 130 if tier == "quick" else 2500      # extra diagrams of the family `same_box_snake`
+    n_same = 130 if tier == "quick" else 1500      # extra diagrams of the family `same_box_snake`
     rng = random.Random(seed)
     irng = random.Random("C07-object-identity-%d" % seed)   # its own stream: the others are unchanged
     drv = Driver()
